@@ -426,6 +426,7 @@ theorem step_fit (hs : SlashCodeOk) (hg : GuardCodeOk) (s : State) (op : Op) (hi
   | conf k n e b sg => exact confirm_fit s k n e b sg hi
   | observe n => simp only [step, observe]; repeat' split
                  all_goals first | exact hi | exact fit_same s _ hi rfl rfl rfl
+  | event bs bcs cs obs => exact fit_same s _ hi rfl rfl rfl
   | block dt => exact block_fit hs s dt hi
   | valslash v num den => simp only [step, valSlash]; split <;> first | exact hi | exact fit_same s _ hi rfl rfl rfl
 
@@ -573,6 +574,7 @@ theorem step_params (hcode : SlashCodeOk) (s : State) (op : Op) : (step s op).1.
                        all_goals first | rfl | (cases k <;> rfl)
   | observe n => simp only [step, observe]; repeat' split
                  all_goals rfl
+  | event bs bcs cs obs => rfl
   | block dt => exact block_params hcode s dt
   | valslash v num den => simp only [step, valSlash]; repeat' split
                           all_goals rfl
